@@ -65,7 +65,8 @@ OPENERS = [None, op_reset_twice, op_help_then_status, op_blocked,
            gen.OPENERS['dependency_then_other'],
            gen.OPENERS['conflict_on_later_target'],
            gen.OPENERS['conflict_on_later_target'],
-           gen.OPENERS['queue_conflict']]
+           gen.OPENERS['queue_conflict'], gen.OPENERS['backport'],
+           gen.OPENERS['backport_pending'], gen.OPENERS['backport_pending']]
 
 
 def plan(tier, seed):
@@ -82,8 +83,18 @@ def run_shard(spec, acc):
                     'settings': {'required_peer_approvals': 1,
                                  'always_create_integration_pull_requests':
                                  True}})
+    for layout in ('d2', 'd3', 's1d2'):
+        for qm in ('queue', 'noqueue'):
+            configs.append({'layout': layout, 'queue_mode': qm,
+                            'settings': {'required_peer_approvals': 1}})
     for i in range(nstates):
         cfg = configs[(spec['shard'] + i * spec['nshards']) % len(configs)]
+        op = OPENERS[rng.randrange(len(OPENERS))]
+        if op is gen.OPENERS['backport_pending']:
+            # the backported PR has to stay pending: approvals required
+            cfg = {'layout': rng.choice(['d2', 'd3', 's1d2']),
+                   'queue_mode': rng.choice(['queue', 'noqueue']),
+                   'settings': {'required_peer_approvals': 1}}
         world = None
         try:
             world = World(seed=rng.getrandbits(30), **cfg)
@@ -97,7 +108,6 @@ def run_shard(spec, acc):
             g = gen.Gen(world, rng, gen.profile(
                 p_green=0.8, p_forward=0.5,
                 w={'comment': 6, 'delete_comment': 2, 'admin': 0.5}), on_job)
-            op = OPENERS[rng.randrange(len(OPENERS))]
             if op:
                 op(g)
             g.walk(g.njobs + rng.randrange(0, 8))
